@@ -31,7 +31,7 @@ LEVEL_NOTE = ("Assurance = weaker of (theorems about the model, correspondence o
               "direct check that the real reverse lookups find every recorded lookup).")
 TECHNIQUE = "Lean 4 proof (forward ⊆ reverse inclusion for all resources) + model/implementation correspondence on recorded dependency lookups"
 
-POLKINDS = ["jwt", "basic", "imtls", "emtls", "oidc", "apikey", "waf"]
+POLKINDS = ["jwt", "basic", "imtls", "emtls", "oidc", "apikey", "waf", "wafold", "wafboth"]
 
 
 def positions():
